@@ -9,6 +9,7 @@ import (
 	"encoding/base64"
 	"encoding/json"
 	"fmt"
+	"sort"
 	"strings"
 	"time"
 
@@ -169,7 +170,17 @@ func (c *Corpus) Extend(label string) *CTx {
 		}
 	}
 	payload := []byte(fmt.Sprintf("%s-payload-%d", c.Tag, c.n))
-	t := c.SignValid(prevs, payload, "foo/bar", c.Keys[c.Choose(label+" key", len(c.Keys))], nil)
+	if n > 2 && c.Choose(label+" reuse-payload", 8) == 7 {
+		// the same content again in another transaction (e.g. a document changed back)
+		if old := c.Valid[c.Choose(label+" reuse-which", n)]; old.Payload != nil && !old.Root {
+			payload = old.Payload
+		}
+	}
+	ptype := "foo/bar"
+	if c.Choose(label+" ptype", 4) == 3 {
+		ptype = "foo/baz"
+	}
+	t := c.SignValid(prevs, payload, ptype, c.Keys[c.Choose(label+" key", len(c.Keys))], nil)
 	c.Valid = append(c.Valid, t)
 	return t
 }
@@ -251,7 +262,7 @@ func (r rawSpec) build() ([]byte, error) {
 var MutantKinds = []string{
 	"lc+1", "lc-1", "unknown-prev", "wrong-payload", "sig-other-key", "sig-tampered", "kid-and-jwk", "no-kid-no-jwk",
 	"alg-hmac", "alg-none", "no-sigt", "no-ver", "no-prevs", "no-lc", "ver-3", "second-root", "two-signatures", "header-tampered",
-	"payload-hash-tampered", "kid-unknown",
+	"payload-hash-tampered", "kid-unknown", "lc-of-lower-prev", "lc-of-lower-prev",
 }
 
 // Mutant derives a defective transaction from a valid one. prevs are the CTx the base refers
@@ -274,6 +285,24 @@ func (c *Corpus) Mutant(kind string, base *CTx, prevs []*CTx) *CTx {
 		}
 		spec.headers["lc"] = lc - 1
 		m.LC = lc - 1
+	case "lc-of-lower-prev":
+		// several prevs with different clocks, the lowest listed first, and the clock derived from it
+		if len(prevs) < 2 {
+			return nil
+		}
+		sorted := append([]*CTx(nil), prevs...)
+		sort.SliceStable(sorted, func(i, j int) bool { return sorted[i].LC < sorted[j].LC })
+		if sorted[0].LC == sorted[len(sorted)-1].LC {
+			return nil
+		}
+		var ps []string
+		for _, p := range sorted {
+			ps = append(ps, p.Ref.String())
+		}
+		spec.headers["prevs"] = ps
+		spec.headers["lc"] = sorted[0].LC + 1
+		m.LC = sorted[0].LC + 1
+		m.Prevs = refs(sorted)
 	case "unknown-prev":
 		bogus := hash.SHA256Sum([]byte(fmt.Sprintf("bogus-%d", c.n)))
 		spec.headers["prevs"] = append(append([]string{}, spec.headers["prevs"].([]string)...), bogus.String())
@@ -411,4 +440,37 @@ func (c *Corpus) MutantKid(kid string, prevs []*CTx) *CTx {
 		m.Ref = tx.Ref()
 	}
 	return m
+}
+
+// ExtendOn adds one valid transaction whose prevs are chosen inside the given view only (the
+// part of the DAG one node knows). The caller keeps the views.
+func (c *Corpus) ExtendOn(view []*CTx, label string) *CTx {
+	n := len(view)
+	k := 1
+	switch c.Choose(label+" nprevs", 6) {
+	case 4:
+		k = 2
+	case 5:
+		k = 3
+	}
+	var prevs []*CTx
+	seen := map[int]bool{}
+	for i := 0; i < k; i++ {
+		var idx int
+		if c.Choose(label+" recent", 4) != 3 {
+			w := 3
+			if n < w {
+				w = n
+			}
+			idx = n - 1 - c.Choose(label+" back", w)
+		} else {
+			idx = c.Choose(label+" any", n)
+		}
+		if !seen[idx] {
+			seen[idx] = true
+			prevs = append(prevs, view[idx])
+		}
+	}
+	payload := []byte(fmt.Sprintf("%s-%s-payload-%d", c.Tag, label, c.n))
+	return c.SignValid(prevs, payload, "foo/bar", c.Keys[c.Choose(label+" key", len(c.Keys))], nil)
 }
